@@ -355,6 +355,8 @@ REFUSALS = [
     (r"reduce|allreduce", r"rab", r"reduce rab algorithm can't be used with this datatype", _rab_datatype, "case"),
     # reduce_scatter-mpich.cpp:179/182: xbt_assert(pof2 == comm_size) "FIXME this version only works for power of 2 procs",
     # xbt_assert(recvcounts[i] == recvcounts[i+1])
+    (r"barrier", r"ompi_two_procs", r"barrier ompi_two_procs algorithm can only be used with 2 processes", lambda np, layout, case: np != 2,
+     "run"),
     (r"reduce_scatter", r"mpich_noncomm", r"pof2 == comm_size", _nonpow2, "run"),
     (r"reduce_scatter", r"mpich_noncomm", r"recvcounts\[i\] == recvcounts\[i ?\+ ?1\]", _unequal_counts, "case"),
 ]
